@@ -10,7 +10,10 @@ Checked: loader agreement (CDict / DDict / R / all ID queries), round trip for e
 through libzstd AND through the extracted reference decoder R, dictID recorded in the frame, wrong-ID decode refused,
 and arbitrary bytes as dictionary under ASan+UBSan."""
 import json
+import os
 import random
+import re
+import shutil
 import time
 
 from .. import codec, core
@@ -161,7 +164,7 @@ def input_for(rng, d, name):
 # ---------------------------------------------------------------------------------------------------------------------
 # Round 2: the API surface beyond zv_codec (harness/c08_api.c): every recipe = compression API family x advanced parameters x
 # way of supplying the dictionary x number of frames, then EVERY decoding path, the ID queries and the wrong-ID refusal.
-API_KEYS = [("records dictID", "C08-dictid-dropped-by-cdict-digested-under-nodictid"),
+API_KEYS = [("records dictID 0,", "C08-dictid-dropped-by-cdict-digested-under-nodictid"), ("records dictID", "C08-api-dictid-recorded-against-flag"),
             ("getDictID_fromCDict", "C08-dictid-dropped-by-cdict-digested-under-nodictid"),
             ("loader_disagreement", "C08-api-loader-disagreement"), ("loader disagreement", "C08-api-loader-disagreement"),
             ("accepted with a dictionary of ID", "C08-api-wrong-id-accepted"), ("accepted without any dictionary", "C08-api-wrong-id-accepted"),
@@ -227,7 +230,7 @@ def api_surface(ctx, rng, cd, dicts, verdict):
     seed = ctx.seed * 1000003 + 17
     inputs = {}
     lines, alines, frames_for_R = [], [], {}
-    per, step = (40, 10) if q else (1500, 50)
+    per, step = (100, 25) if q else (6000, 100)
     for i, (name, d) in enumerate(dicts):
         if name == "advOFpartial":
             continue
@@ -237,7 +240,7 @@ def api_surface(ctx, rng, cd, dicts, verdict):
         inputs[i] = x
         for j in range(0, per, step):
             lines.append("R a%d.%d %d %d %d 4 %s %s" % (i, j, seed, j, step, codec.hx(d), codec.hx(x)))
-        for j in range(per, per + (10 if q else 200), 10):
+        for j in range(per, per + (30 if q else 800), 10):
             alines.append("R s%d.%d %d %d 10 0 %s %s" % (i, j, seed, j, codec.hx(d), codec.hx(x)))
     # inputs of several blocks (reload instead of attach / copy above 128 KiB and 6 x dictionary size; the dictionary scrolls out of the window)
     for i in rng.sample(sorted(inputs), 6 if q else 30):
@@ -282,13 +285,17 @@ def api_surface(ctx, rng, cd, dicts, verdict):
         alines.append("R u%d %d %d %d 0 %s %s" % (k, seed, 12000, 5 if q else 50, codec.hx(bytes(hdr) + c), codec.hx(x)))
     # hostile dictionaries: damaged headers of accepted ones; whatever one loader accepts the other accepts; no trap under ASan+UBSan
     pool = [(n, d, len(d) - len(ADV_INFO[n][1])) for n, d in fm] + [(n, d, max(9, len(d) - 300)) for n, d in dicts if n.startswith(("http", "zero"))]
-    for k in range(80 if q else 1200):
+    for k in range(120 if q else 3000):
         if not pool:
             break
         n, d, hl = rng.choice(pool)
         x = inputs.get([nn for nn, _ in dicts].index(n), b"abc" * 100)[:20000]
-        alines.append("R h%d %d 0 %d 2 %s %s" % (k, seed + k, 8 if q else 20, codec.hx(hostile_variant(rng, d, hl)), codec.hx(x)))
+        alines.append("R h%d %d 0 %d 2 %s %s" % (k, seed + k, 10 if q else 30, codec.hx(hostile_variant(rng, d, hl)), codec.hx(x)))
     t0 = time.time()
+    # bytes that carry the dictionary magic but stop at or right after the 8-byte header: refused by both sides, never "no dictionary"
+    for k, tail in enumerate([b"", b"\x00", b"\x01\x02", b"\xff" * 4, b"\x00" * 12, b"\x00" * 40]):
+        dd = MAGIC + (4242 + k).to_bytes(4, "little") + tail
+        lines.append("R e%d %d 0 %d 2 %s %s" % (k, seed, 10 if q else 60, codec.hx(dd), codec.hx(codec.gen_input(rng, "text", 600))))
     out = api_run(ctx, exe, lines, variant="o1")
     t1 = time.time()
     aout = api_run(ctx, exa, alines, nproc=8, variant="asan")
@@ -378,6 +385,8 @@ def api_surface(ctx, rng, cd, dicts, verdict):
                               what="multi-DDict table {raw-content DDict, another dictionary}: a frame naming a third dictionary ID is decoded instead of refused (case %s)" % i,
                               key="C08-multiddict-id0-entry-matches-any-id")
             ctx.count(("multiddict-raw-entry", exp, i[0]), nontrivial=True)
+    dictid_histories(ctx, rng, exe, dicts, verdict)
+    select_histories(ctx, rng, cd, exe, dicts)
     # ---- formatted dictionaries beyond the 2^24-byte reach of tagged ("short cache") CDict tables ----
     if fm:
         n, d = fm[0]
@@ -394,6 +403,127 @@ def api_surface(ctx, rng, cd, dicts, verdict):
             ctx.count(("big-dictionary", rest.split(" ")[0]), nontrivial=True)
 
 
+def dictid_histories(ctx, rng, exe, dicts, verdict):
+    """random call histories on one context: the dictID of every frame as computed by the Gallina model C08DictId.run (evaluated by coqc
+    on the generated histories, vm_compute) against ZSTD_getDictID_fromFrame on the real frames; every frame is decoded back too"""
+    fm = [(n, d) for i, (n, d) in enumerate(dicts) if d[:4] == MAGIC and len(d) > 8 and verdict.get(i) == (True, True)]
+    if not fm:
+        return
+    alphabet = ["f0", "f1", "L", "Lr", "C0", "C1", "P", "Pr", "U", "X", "X", "X"]
+    hists = [["f0", "L", "X", "f1", "X"], ["C0", "X"], ["f0", "C1", "X", "f1", "X", "U", "X"], ["L", "f0", "X", "Pr", "X", "X", "f1", "X"]]
+    for _ in range(60 if ctx.quick else 1500):
+        hists.append([rng.choice(alphabet) for _ in range(rng.randint(2, 14))] + ["X"])
+    lines, terms = [], []
+    for k, hs in enumerate(hists):
+        n, d = fm[k % len(fm)]
+        did = int.from_bytes(d[4:8], "little")
+        x = input_for(rng, d, n)[:3000] or b"abcabcabc"
+        lines.append("H h%d %s %s %s" % (k, codec.hx(d), ",".join(hs), codec.hx(x)))
+        m = {"f0": "SetIdFlag false", "f1": "SetIdFlag true", "L": "Load %d" % did, "Lr": "Load 0", "C0": "RefCDict false %d" % did,
+             "C1": "RefCDict true %d" % did, "P": "RefPrefix %d" % did, "Pr": "RefPrefix 0", "U": "Unload", "X": "Compress"}
+        terms.append("[" + "; ".join(m[o] for o in hs) + "]")
+    wd = os.path.join(core.BUILD, "wip", "c08-dictid-%d-%d" % (os.getpid(), ctx.seed))
+    os.makedirs(wd, exist_ok=True)
+    with open(os.path.join(wd, "Hist.v"), "w") as f:
+        f.write("From Coq Require Import NArith List.\nFrom ZV.Codec Require Import C08DictId.\nImport ListNotations.\nLocal Open Scope N_scope.\n"
+                "Eval vm_compute in (map (fun l => map e_header (run true init l)) [%s]).\n" % ";\n ".join(terms))
+    rc, o, e = core.sh(["timeout", "600", "coqc", "-Q", core.COQ, "ZV", "Hist.v"], cwd=wd)
+    if rc != 0:
+        ctx.violation(dict(kind="model-eval", detail=(o + e)[-1500:]), what="coqc could not evaluate C08DictId.run on the generated histories", no_input=True)
+        return
+    body = o[o.index("= [") + 2:o.rindex(": list (list N)")] if ": list (list N)" in o else ""
+    model = [[int(v) for v in re.findall(r"\d+", part)] for part in re.findall(r"\[([^\[\]]*)\]", body)]
+    shutil.rmtree(wd, ignore_errors=True)
+    out, errs = codec._run_chunks(exe, lines, core.NCPU, 1200)
+    if len(model) != len(hists):
+        ctx.violation(dict(kind="model-eval", detail=o[-1500:]), what="could not parse the model's answer for the dictID histories (%d of %d)" % (len(model), len(hists)), no_input=True)
+        return
+    for k, hs in enumerate(hists):
+        rest = out.get("h%d" % k, "ERR missing")
+        got = None if not rest.startswith("OK") else ([] if rest.split(" ")[1] == "-" else [int(v) for v in rest.split(" ")[1].split(",")])
+        if got != model[k]:
+            ctx.violation(dict(kind="api", variant="o1", line=lines[k], history=hs, model=model[k], impl=rest, expect_ids=model[k]),
+                          what="dictionary IDs of the frames of one context differ from the model C08DictId.run: history %s, model %s, libzstd %s" % (
+                              ",".join(hs), model[k], rest[:200]), key="C08-dictid-dropped-by-cdict-digested-under-nodictid")
+        ctx.count(("dictid-history", tuple(hs[:6]), tuple(model[k][:4])), nontrivial=len(model[k]) > 0)
+    ctx.notes["dictid_histories"] = len(hists)
+
+
+def select_histories(ctx, rng, cd, exe, dicts):
+    """random histories of ZSTD_DCtx_refDDict calls (dictIDs chosen so that probe paths collide in the 64-slot table: 0 / 21 / 26 share slot 52,
+    3 / 47 slot 63; one ID present twice with different content): the verdict of the Gallina model C08Select.select (evaluated by coqc with the
+    real XXH64 model) against ZSTD_decompressDCtx / ZSTD_decompressStream with ZSTD_d_refMultipleDDicts on the real table"""
+    base = next((d for n, d in dicts if n.startswith("http")), None)
+    if base is None or len(base) < 400:
+        return
+    hl = len(base) - 300
+    ids = [21, 26, 3, 47, 777, 21]
+    contents = [codec.gen_input(rng, "text", 6000) for _ in ids]
+    D = [base[:4] + v.to_bytes(4, "little") + base[8:hl] + c for v, c in zip(ids, contents)]
+    xs = []
+    for c in contents:
+        x = bytearray(codec.gen_input(rng, "lowent", 5000))
+        for k in range(5):
+            x[300 + 900 * k:300 + 900 * k + 400] = c[1000 + 700 * k:1400 + 700 * k]
+        xs.append(bytes(x))
+    cl = ["C f%d usingDict:3 - - %s %s" % (j, codec.hx(D[j]), codec.hx(xs[j])) for j in range(6)]
+    cl.append("C f6 compress2 %s load %s %s" % (codec.params_str({"level": 3, "dictID": 0}), codec.hx(D[0]), codec.hx(xs[0])))
+    cout, _ = cd.impl(cl)
+    frames = {}
+    for j in range(7):
+        r = codec.parse_ok(cout.get("f%d" % j, "ERR missing"))
+        if r[0] == "OK":
+            frames[j] = r[1]
+    if len(frames) < 7:
+        return
+    RAW = 6      # handle of the raw-content DDict (bytes of dictionary 4 taken as content, dictID 0)
+    cases, terms, tl = [], [], []
+    for k in range(40 if ctx.quick else 600):
+        ents = [rng.choice([0, 1, 2, 3, 4, 5, RAW, RAW]) for _ in range(rng.randint(1, 7))]
+        act = rng.randrange(len(ents))
+        j = rng.randrange(7)                       # frame: compressed with dictionary j (6: dictionary 0, no ID in the frame)
+        used, fid = (0, 0) if j == 6 else (j, ids[j])
+        hist = ents + [ents[act]]
+        ent = lambda h: "(%d, %d)" % (0 if h == RAW else ids[h], h)
+        terms.append("v [%s] %s %d" % ("; ".join(ent(h) for h in hist), ent(ents[act]), fid))
+        spec = ",".join("r4" if h == RAW else str(h) for h in ents)
+        for mode in ("dctx", "stream"):
+            tl.append("T q%d%s %s:%d:%s %s %s" % (k, mode, mode, act, spec, codec.hx(frames[j]), " ".join(codec.hx(d) for d in D)))
+        cases.append((k, used, xs[used], hist, fid))
+    wd = os.path.join(core.BUILD, "wip", "c08-select-%d-%d" % (os.getpid(), ctx.seed))
+    os.makedirs(wd, exist_ok=True)
+    with open(os.path.join(wd, "Sel.v"), "w") as f:
+        f.write("From Coq Require Import NArith List.\nFrom ZV.Safety Require Import DDictHashSet.\nFrom ZV.Codec Require Import C08Select.\n"
+                "Import ListNotations.\nLocal Open Scope N_scope.\n"
+                "Definition v (l : list (N * N)) (a : N * N) (fid : N) := match add_all xxh_hash next_fixed l create with HOk s => Some (select xxh_hash s a fid) | _ => None end.\n"
+                "Eval vm_compute in [%s].\n" % ";\n ".join(terms))
+    rc, o, e = core.sh(["timeout", "900", "coqc", "-Q", core.COQ, "ZV", "Sel.v"], cwd=wd)
+    shutil.rmtree(wd, ignore_errors=True)
+    verd = re.findall(r"Some \(Decode \((\d+), (\d+)\)\)|Some (Refuse)|Some (Broken)|(None)", o) if rc == 0 else []
+    if len(verd) != len(cases):
+        ctx.violation(dict(kind="model-eval", detail=(o + e)[-1500:]), what="coqc could not evaluate C08Select.select on the generated histories (%d of %d)" % (len(verd), len(cases)), no_input=True)
+        return
+    tout, terrs = codec._run_chunks(exe, tl, core.NCPU, 1200)
+    for (k, used, x, hist, fid), vd in zip(cases, verd):
+        for mode in ("dctx", "stream"):
+            r = codec.parse_ok(tout.get("q%d%s" % (k, mode), "ERR missing"))
+            line = [l for l in tl if l.split(" ")[1] == "q%d%s" % (k, mode)][0]
+            good = r[0] == "OK" and r[1] == x
+            if vd[2] == "Refuse":
+                okk, exp = (r[0] == "ERR" and r[1] == "Dictionary_mismatch"), "refused (Dictionary mismatch)"
+            elif vd[0] != "":
+                okk, exp = (good if int(vd[1]) == used else not good), "decoded with DDict handle %s" % vd[1]
+            else:
+                okk, exp = False, "model: %r" % (vd,)
+            if not okk:
+                ctx.violation(dict(kind="api", variant="o1", line=line, model=exp, impl=(r[1] if r[0] == "ERR" else ("right bytes" if good else "other bytes")),
+                                   **({"expect_hex": x.hex()} if vd[0] != "" and int(vd[1]) == used else {"result": "accepted"} if vd[2] == "Refuse" else {})),
+                              what="multi-DDict selection differs from the model C08Select.select: history %s, frame dictID %d: model %s, libzstd (%s) %s" % (
+                                  hist, fid, exp, mode, r[1] if r[0] == "ERR" else ("right bytes" if good else "other bytes")), key="C08-multiddict-id0-entry-matches-any-id")
+        ctx.count(("select-history", len(hist), fid, vd[2] or vd[1]), nontrivial=True)
+    ctx.notes["select_histories"] = len(cases)
+
+
 def api_replay(ctx, rp):
     exe = core.build_harness("c08_api", ["c08_api.c"], variant=rp.get("variant", "o1"), extra_flags=["-w"])
     if not rp.get("line"):
@@ -403,6 +533,8 @@ def api_replay(ctx, rp):
     rest = list(out.values())[0] if out else "no output"
     core.log("replay: %s" % rest[:600])
     wrong = "expect_hex" in rp and rest.startswith("OK ") and rest.split(" ")[1] != (rp["expect_hex"] or "-")
+    if "expect_ids" in rp and rest.startswith("OK "):
+        wrong = rest.split(" ")[1] != (",".join(map(str, rp["expect_ids"])) or "-")
     if errs or not out or wrong or rest.startswith(("FAIL", "ERR")) or rp.get("result") == "accepted" and rest.startswith("OK"):
         ctx.violation(rp, what="replayed: %s %s" % (rest[:300], (errs[0][1][-300:] if errs else "")))
 
